@@ -37,6 +37,72 @@ CLAIMED = {
         note="Trusted: Coq kernel incl. vm_compute for the 7x65x256 sweep; gen/G_juniper.v; hand model tied by correspondence incl. a malformed stream and an independent decoder. Known finding D17 (empty plaintext). Axioms: none.",
         technique="Coq proof (finite per-character sweep lifted to all plaintexts by induction) over generated tables + correspondence",
         ref="DESIGN.md section 6, C18"),
+
+    "C06": dict(
+        text="Coq theorems: for every regex of the subset, substitution replaces exactly non-empty, ordered, disjoint spans and every matched character belongs to a consuming class of the pattern; on the IPv4/IPv6 patterns regenerated from the source each run, a match covers only digits and dots / address characters (never whitespace, terminators, other text). The executable model (regex engine on generated ASTs, ipaddress text, memoised mapping) is compared with the real pipeline on template lines and on ALL short strings over a boundary alphabet; an independent token scanner + reference mapping is the oracle.",
+        note="Partial: 'matched spans are exactly the standalone valid tokens' is not a theorem (sweep + oracle). Known finding D1b (IPv4-tail forms the pattern does not list). Trusted: Coq kernel incl. vm_compute, rxgen + re._parser, hand model tied by correspondence.",
+        technique="Coq proof (generic regex span/alphabet theorems + facts decided on regenerated ASTs) + model/implementation correspondence incl. exhaustive short strings",
+        ref="DESIGN.md section 6, C06"),
+    "C07": dict(
+        text="Coq theorem (value level): the pseudonym allocator's outputs are invariant under any injective class-preserving renaming of secrets, over all request histories; all 55+ generated line patterns are non-nullable. The full secrets stage is an executable model over the regenerated regex groups, compared byte-for-byte with the implementation; paired runs differing only in secret values must give identical output and INFO+ logs.",
+        note="Partial: recognition of line forms by the generated regexes is not proved (correspondence + paired-run search). Known findings D11, D12. passlib md5/sha512 are oracles.",
+        technique="Coq proof (allocator non-interference by induction over histories) + correspondence + relational (paired-run) search",
+        ref="DESIGN.md section 6, C07"),
+    "C08": dict(
+        text="Coq theorem: over all request histories of the allocator equal secrets get equal replacements and different secrets different ones (given injective per-class encoders); $9$ re-encodings of one plaintext decrypt to the same key (from C18). Model/implementation correspondence on multi-line runs with repeats, quoting variants and $9$ re-encodings; replacements read back by position.",
+        note="Encoder injectivity for md5-crypt/sha512-crypt is an oracle assumption. Known finding D13 (two matches of one pattern on one line share a pseudonym).",
+        technique="Coq proof (numbered-lookup invariant over histories) + correspondence + equality-pattern search",
+        ref="DESIGN.md section 6, C08"),
+    "C09": dict(
+        text="Coq theorems: the $9$ replacement of every pseudonym under every salt is decryptable (C18); decimal/hex/type-7 encodings have their shape for pseudonym numbers 0..199 (bounded sweep, stated as such); enclosing-text lists read from the source equal the property's. The model re-implements type 7 and is compared byte-for-byte; replacements are decoded with independent decoders over all type-7 salts, md5 salt lengths, 65 $9$ salt characters and enclosing combinations.",
+        note="Partial: md5-crypt/sha512-crypt shapes are passlib's (oracle, checked by shape tests); 'context kept' is decided by the positional read-back in the search.",
+        technique="Coq proof (codec theorem + bounded encoder sweep on generated constants) + correspondence + independent decoders",
+        ref="DESIGN.md section 6, C09"),
+    "C10": dict(
+        text="Coq theorem (token model): after leftmost-first substitution of a case-insensitive alternation of literal words by six-hex-character pseudonyms no listed good word occurs in the output, for every case folding, pseudonym function and order of the alternation; reserved tokens / reserved secrets are returned unchanged by the model. Correspondence on generated word lists under several hash seeds; case-insensitive search of the output.",
+        note="Partial: the token model of lib/Words.v is tied to model/TextModel.v only through the correspondence with the code. Words with spaces / regex metacharacters / non-ASCII are outside the model (implementation-only search). D15 fixed.",
+        technique="Coq proof (no-survivor theorem over token substitution) + correspondence under multiple PYTHONHASHSEEDs",
+        ref="DESIGN.md section 6, C10"),
+    "C11": dict(
+        text="Coq theorem over the boundary table regenerated from the source: for EVERY hash value and every AS number the replacement is in the same block; out-of-range rejected; hash non-negative; run-time pattern non-nullable. Correspondence with the hash value forced at every block boundary; text-level oracle = independent digit-run scanner.",
+        note="That matches are exactly standalone listed numerals is decided by the scanner oracle, not a theorem.",
+        technique="Coq proof (arithmetic over generated table, all hash values) + forced-hash correspondence + digit-run oracle",
+        ref="DESIGN.md section 6, C11"),
+    "C12": dict(
+        text="Coq theorems on the pipeline model: one output line per input line in order; a prefix of the text is processed independently of what follows (line locality modulo earlier state); an IPv4 match never covers whitespace. Token-level oracle over all 16 feature subsets for edges, terminators, verbatim tokens and whitespace.",
+        note="Partial: edge preservation of the secrets/words stages is decided by the oracle. open() newline translation outside the model.",
+        technique="Coq proof (structural induction over the line loop; regex alphabet facts) + correspondence + token-level oracle",
+        ref="DESIGN.md section 6, C12"),
+    "C13": dict(
+        text="The model is a function of (salt, options, text) with no seed/clock/global state; the implementation is compared with it byte-for-byte in fresh processes under several hash seeds and after unrelated anonymizers were constructed; sorted word order proved order-independent on a bounded domain; no-salt run reproduces with the reported salt.",
+        note="Partial: process-level determinism is runtime behaviour shown by correspondence across processes, the theorem part is bounded. D7-D10 fixed.",
+        technique="Coq model without hidden inputs + cross-process / cross-seed correspondence",
+        ref="DESIGN.md section 6, C13"),
+    "C14": dict(
+        text="Coq theorems excluding failure modes: generated patterns non-nullable; $9$ decoder fails only with ValueError and encoder total for every salt; address memo never raises from any reachable state; AS pattern non-nullable. Hostile-line stream on model and implementation: a raise on either side is reported.",
+        note="Partial: capture-group participation and passlib totality are not proved. D2-D6 fixed.",
+        technique="Coq proof (per-failure-mode lemmas) + hostile-input correspondence/search",
+        ref="DESIGN.md section 6, C14"),
+    "C15": dict(
+        text="Coq theorem: the model's per-line function is the composition of the five stages in the order secrets, IPv6, IPv4, words, AS numbers, and each single-feature anonymizer computes exactly its stage. Combined runs vs chains of single-feature runs on implementation and model for all 16 subsets and undo.",
+        note="Constructor wiring in the code is tied by correspondence.",
+        technique="Coq proof (unfolding the pipeline into stage composition) + combined-vs-chained correspondence",
+        ref="DESIGN.md section 6, C15"),
+    "C16": dict(
+        text="Coq theorems on the shared-state model: files processed in sequence through one anonymizer = the concatenated text; line counts kept. Real runs of the four entry points on generated trees with a failing file at every position; the model processes the files in walk order.",
+        note="Partial: the file system (walk, hidden files, decoding, directories) is runtime behaviour decided by real runs.",
+        technique="Coq proof (state threading over concatenated files) + real-filesystem runs of all entry points",
+        ref="DESIGN.md section 6, C16"),
+    "C17": dict(
+        text="Coq theorems for every flip function/width/host bits/preserved list and every request history: the memo is complete (each anonymized address has its full-length entry with the returned answer), sound (each entry is (k, image k)) and duplicate-free from the constructor on. Model dump compared line by line with the real dump; dump checked against pairs read from output files.",
+        note="Text forms (print4/print6) are library models tied by correspondence.",
+        technique="Coq proof (monotone memo + uniqueness invariant over histories) + dump correspondence",
+        ref="DESIGN.md section 6, C17"),
+    "C19": dict(
+        text="Coq theorems on the model of main over parsed arguments: invalid combinations rejected before any call; nothing enabled => no call; host bits reach both families; --preserve-private-addresses appends exactly RFC 1918; defaults read from the real parser are the documented ones. The real main runs with anonymize_files replaced by a recorder; command-line / config-file / both renderings must agree.",
+        note="Partial: argparse/configargparse (precedence, required args, host-bit range) are not modelled, checked on the implementation.",
+        technique="Coq proof (decision logic of main) + recorded-call correspondence + argv/config search",
+        ref="DESIGN.md section 6, C19"),
 }
 NA_REASON = "check not built yet in this round (work in progress; see DESIGN.md section 9 for the order of work)"
 
